@@ -518,17 +518,22 @@ class ParamUpdate(Contract):
 
 class AtInstantGet(Contract):
     name = f"{AIL}.get_at_instant"
-    prop = ("C06",)
+    prop = ("C06", "C07")
     top_level = True
-    cases = ("get_at_instant", "__call__")
-    descr = "reading a parameter at an instant reads its history at the ISO text of that instant"
-    inline = (f"{AIL}.get_at_instant", "openfisca_core.periods.helpers.instant*")
+    cases = ("get_at_instant", "__call__", "iso-date-text", "iso-week-date-text", "month-text")
+    TEXTS = {"iso-date-text": ("2015-06-08", (2015, 6, 8)), "iso-week-date-text": ("2015-W24-1", (2015, 6, 8)), "month-text": ("2015-06", (2015, 6, 1))}
+    descr = ("reading a parameter at an instant reads its history at the ISO text of that instant - whatever spelling the instant "
+             "is given in (an instant, an ISO date, an ISO week date, a month)")
+    inline = (f"{AIL}.get_at_instant", "openfisca_core.periods.helpers.instant*", "openfisca_core.periods._parsers.*", "openfisca_core.types.*")
 
     def target(self, I):
         return super().target(I)
 
     def setup(self, I, ctx, case):
         h = History(I, ctx)
+        if case in self.TEXTS:
+            text, (y, m, d) = self.TEXTS[case]
+            return {"self": mk_parameter(I, SymList(h.seq)), "instant": text, "__H": h, "__case": case, "__ymd": (y, m, d)}
         inst, (y, m, d) = sym_instant(I, ctx, "q")
         ctx.assume(y >= 1000)
         return {"self": mk_parameter(I, SymList(h.seq)), "instant": inst, "__H": h, "__case": case}
@@ -538,15 +543,31 @@ class AtInstantGet(Contract):
         if out[0] != "return" or len(calls) != 1 or calls[0][1][0] != "return":
             return [("reads-the-history-once", False)]
         aa, o = calls[0]
+        if "__ymd" in a:
+            y, m, d = a["__ymd"]
+            got = aa["instant"]
+            same = (got == "%04d-%02d-%02d" % (y, m, d)) if isinstance(got, str) else (strings.iso_key(got) == cal.iso_key(z3.IntVal(y), z3.IntVal(m), z3.IntVal(d)))
+            return [("history-read-at-the-iso-text-of-the-instant-denoted", same), ("same-parameter", z3.BoolVal(aa["self"] is a["self"])),
+                    ("returns-what-the-history-gives", pv(I, out[1]) == pv(I, o[1]))]
         y, m, d = ymd(a["instant"])
         return [("history-read-at-the-iso-text-of-the-instant", strings.iso_key(aa["instant"]) == cal.iso_key(y, m, d)),
                 ("same-parameter", z3.BoolVal(aa["self"] is a["self"])),
                 ("returns-what-the-history-gives", pv(I, out[1]) == pv(I, o[1]))]
 
 
+def _spelling_probes(self, case):
+    return [{"callee": self.name, "script": REPLAY, "mode": "spellings", "history": h, "args": {}}
+            for h in ([[20160101, 0.2], [20150601, 0.3], [20100101, 0.5]], [[20200229, 1], [20191230, 2], [20150608, 3]])]
+
+
+AtInstantGet.probes = _spelling_probes
+AtInstantGet.judge_native = lambda self, I, case, call, nat: judge(nat)
+
+
 class AtInstantCall(AtInstantGet):
     name = f"{AIL}.__call__"
     cases = (None,)
+    TEXTS = {}
     top_level = False
     descr = "calling a parameter with an instant is get_at_instant"
 
